@@ -453,6 +453,27 @@ pub fn resolve_cases(rng: &mut Rng, thorough: bool) -> Vec<RsCase> {
         vec![("a".into(), Value::Int(1)), ("A".into(), Value::Int(2)), ("a".into(), Value::Vec(vec![Value::Int(3)]))],
     ];
     let mut out = vec![];
+    // field names that look like positions (all digits, leading zeros, signs): a field step is a field step whatever its name
+    // looks like, a position step a position step — maps with such keys next to lists, through both kinds of step
+    {
+        let digits = map(&[("0", Value::Int(100)), ("1", Value::Int(101)), ("01", Value::Int(102)), ("2024", Value::Int(103)), ("-1", Value::Int(104)), ("+1", Value::Int(105)), ("1e0", Value::Int(106)), ("l", Value::Vec(vec![Value::Int(200), Value::Int(201)])), ("m", map(&[("0", Value::Int(300)), ("1", Value::Int(301))]))]);
+        let mut rules = vec![];
+        for base in [reff("facts"), reff("l"), reff("m"), idxk(reff("facts"), "m"), idxk(reff("facts"), "l")] {
+            for k in ["0", "1", "01", "2024", "2022", "-1", "+1", "1e0", "00", " 1"] {
+                rules.push(idxk(base.clone(), k));
+                rules.push(idxk(idxk(base.clone(), k), "0"));
+            }
+            for n in [0usize, 1, 2, 2024] {
+                rules.push(idxn(base.clone(), n));
+            }
+        }
+        for k in ["0", "1", "2024"] {
+            rules.push(reff(k));
+            rules.push(Expr::Symbol(k.into()));
+        }
+        out.push(RsCase { tag: "digit-names".into(), rules: rules.clone(), facts: digits.clone(), env: EnvSpec { syms: vec![("0".into(), Value::Int(400)), ("2024".into(), Value::Int(401))], fns: vec![] }, evals: 1 });
+        out.push(RsCase { tag: "digit-names".into(), rules, facts: Value::Vec(vec![Value::Int(500), Value::Int(501)]), env: EnvSpec { syms: vec![], fns: vec![] }, evals: 1 });
+    }
     let maxlen = if thorough { 3 } else { 2 };
     for (fi, facts) in facts_pool.iter().enumerate() {
         for (si, syms) in sym_tables.iter().enumerate() {
